@@ -108,8 +108,10 @@ class C12(Scenario):
             cfg["n_meshes"] = rng.choice([2, 2, 3])
             cfg["mirror_geo"] = True
         elif arm == "salt":
-            fam["shape_derivative"] = 0.5
+            fam["shape_derivative"] = 0.35
+            fam["mixed_space"] = 0.3
             fam["flat_form"] = 0.1
+            cfg["n_coef"] = rng.randint(2, 4)
         elif arm == "shared-measure":
             # program and noise both integrate with the module-level measures; the noise is
             # algorithm-heavy (earlier, unrelated work in the same process)
@@ -122,6 +124,7 @@ class C12(Scenario):
         else:
             fam["shape_derivative"] = 0.1
             fam["flat_form"] = 0.15
+            fam["mixed_space"] = 0.1
         units = []
         obs_slots = []
         if arm == "demo":
